@@ -317,3 +317,11 @@ M("C01", "cart2kep-sma", FORMS, "        a = -body.µ / (2 * K)  # semi-major ax
 M("C01", "cart2kep-energy", FORMS, "        K = v_norm ** 2 / 2 - body.µ / r_norm  # specific energy", "        K = v_norm ** 2 - body.µ / r_norm  # specific energy", "R01.13")
 M("C01", "cart2kep-perigee", FORMS, "        ω = (ω_ν - ν) % (2 * np.pi)  # argument of the perigee", "        ω = (ω_ν + ν) % (2 * np.pi)  # argument of the perigee", "R01.13")
 M("C01", "cart2kep-inclination", FORMS, "        i = arccos(h[2] / h_norm)  # inclination", "        i = arccos(h[1] / h_norm)  # inclination", "R01.13")
+
+M("C10", "umbra-cone", LIS, "                    umb_vert = np.tan(alpha_umb) * (y - sat_horiz)", "                    umb_vert = np.tan(alpha_umb) * (y + sat_horiz)", "R10.7")
+M("C10", "sun-side", LIS, "        if x_sun @ x_sat < 0:", "        if x_sun @ x_sat > 0:", "R10.7")
+M("C10", "terminator-label", LIS, '        if orb2.r_dot > 0:\n            msg = "Night Terminator"', '        if orb2.r_dot < 0:\n            msg = "Night Terminator"', "R10.7")
+M("C13", "man-dv-index", OPM, 'x.text = f"{man._dv[i] / units.km:.6f}"', 'x.text = f"{man._dv[i - 1] / units.km:.6f}"', "B11")
+M("C13", "omm-element-order", OMM, "            elements = [i, Omega, e, omega, M, n]\n            form = \"TLE\"\n            propagator = \"Sgp4\"\n            kwargs = {\n                \"bstar\": decode_unit(data,", "            elements = [i, omega, e, Omega, M, n]\n            form = \"TLE\"\n            propagator = \"Sgp4\"\n            kwargs = {\n                \"bstar\": decode_unit(data,", "B11")
+M("C13", "kvn-unit-bracket", COMMONS, '            attrib = {"units": unit.rstrip("]")}', '            attrib = {"units": unit}', "B12")
+M("C17", "dkep2aol-args", MAN, "    return np.arctan2(dOmega * np.sin(orb.infos.kep.i), di)", "    return np.arctan2(di, dOmega * np.sin(orb.infos.kep.i))", "R17.4")
